@@ -77,6 +77,13 @@ LABELLED = [
 ]
 # valid documents that exercise order-dependent machinery
 VALID_TRICKY = [
+    # response names starting with two underscores are ordinary response names (June 2018 has no rule about them), on any operation kind
+    "subscription { __typename }",
+    "subscription { t: __typename }",
+    "subscription { __x: tick }",
+    "subscription { ...F } fragment F on Subscription { __typename }",
+    "{ __me: me { __n: name __typename } }",
+    "mutation { __a: a(n: 1) }",
     "query A($x: Int) { ...L1 } fragment L3 on Query { me { friends(first: $x) { name } } } fragment L2 on Query { ...L3 } fragment L1 on Query { ...L2 }",
     "query A($x: Int) { ...L1 } fragment L1 on Query { ...L2 } fragment L2 on Query { ...L3 } fragment L3 on Query { me { friends(first: $x) { name } } }",
     "query A($x: Int, $s: String) { me { friends(first: $x) { name } } echo(s: $s) }",
